@@ -1945,6 +1945,17 @@ func (c *RemoteClient) handleRequestResponse(ctx context.Context, message *Messa
 
 	case *Reject:
 		if msg.Hash == nil {
+			if msg.MessageType == MessageTypeGetFeeQuotes {
+				// Fee quote requests have no hash to identify them.
+				for i, request := range c.requests {
+					if request.typ == MessageTypeGetFeeQuotes {
+						request.response <- message
+						c.requests = append(c.requests[:i], c.requests[i+1:]...)
+						return nil
+					}
+				}
+			}
+
 			logger.Info(ctx, "Received reject with no hash")
 			return nil
 		}
